@@ -104,6 +104,12 @@ func parseDocker(raw string, kind Kind, first bool) (*URL, error) {
 		}
 	}
 
+	// Reject usernames and container names that Docker would interpret as
+	// options.
+	if resemblesOption(username) || resemblesOption(container) {
+		return nil, errors.New("username or container name resembles a command line option")
+	}
+
 	// Perform path processing based on URL kind.
 	if kind == Kind_Synchronization {
 		// If the path starts with "/~", then we assume that it's supposed to be
